@@ -26,6 +26,8 @@ CLASSES = {
  "capture_of_destructured_variable": ("capture-of-destructured-variable", "a lambda capturing a variable bound by a tuple pattern reads an address instead of the value on WASM (5.18e-321 instead of 2.0)"),
  "capture_of_aggregate_parameter_reentrant": ("capture-of-aggregate-parameter", "a lambda that captures a tuple/record-typed parameter of its function reads the argument of a later, re-entrant call of that function on WASM (the closure keeps the address of the caller's argument area): pf4(|x| pf4(.., (1.0, 2.0)), (1.5, 2.5)) yields 4.0 instead of 6.0"),
  "capture_of_parameter_after_aggregate_parameter": ("capture-of-parameter-after-aggregate-parameter", "VM: a lambda capturing a parameter that follows a tuple/record parameter reads the wrong stack word when an earlier sibling lambda with at least as many parameters exists: bytecodegen resolves the captured Argument(i) in the sibling's register map (pos = i instead of the word offset), so fn sf1(a2:(float,float,float), a3){ let l = |p, q| 1.0  (|x| a3)(1.0) } returns a2.1"),
+ "global_closure_aliased_and_captured_twice": ("closure-valued-global-as-value", "VM: a closure held in a global (let g = mk()) that dsp binds to a local (let h = g) captured by two sibling lambdas is released at the end of the sample although the global still refers to it: the next sample calls a freed closure ('Invalid indirect callable'); WASM is unaffected"),
+ "assign_after_sibling_closure_closed": ("assign-to-variable-captured-by-another-closure", "VM: a local captured by one closure and assigned through another: once the first closure has been closed (it went out of scope / was passed on) the upvalue is a copy, and the enclosing function keeps reading the stale stack slot (1.0 instead of 2.5); same root cause as assign-in-closure-passed-as-argument"),
  "assign_in_closure_passed_as_argument": ("assign-in-closure-passed-as-argument", "a closure passed as an argument that assigns a captured local: the assignment is lost on the VM (upvalue closed by copy when passed), visible on WASM"),
  "stateful_call_in_branch_one_arm": ("stateful-call-in-branch", "a stateful call in only one arm of an if: the VM's state cursor leaves the dsp storage (hook: Get at pos=len), the WASM runtime silently grows its storage"),
  "stateful_call_in_branch": ("stateful-call-in-branch", "state cells inside if arms: both arms overlay the same cells and pending cursor pushes leak between arms (mirgen Expr::If, 'todo: state offset for branches'); the state cursor leaves the storage (hook: Mem at pos=len, cursor underflow)"),
